@@ -722,8 +722,10 @@ fn ident_list_batch(b: &J) -> bool {
         return false;
     }
     let mut counts: std::collections::HashMap<String, usize> = Default::default();
+    let under_str = es[0]["m"] == "str";
     for v in es[0]["v"]["vs"].as_array().unwrap() {
-        *counts.entry(batch_class(v)).or_default() += 1;
+        let c = if under_str && (v["t"] == "num" || v["t"] == "bool") { "ahofalse".to_string() } else { batch_class(v) };
+        *counts.entry(c).or_default() += 1;
     }
     counts.iter().any(|(c, n)| c != "solo" && *n >= 2)
 }
@@ -1013,6 +1015,127 @@ pub fn gen_cases(topic: &str, seed: u64, n: usize, path: &str) -> Result<(), Str
         let c: J = match topic {
             "lang" => json!({"topic":"lang","oracle":true,"wt":true,"src":src,"docs":docs,
                              "plan":{"tri":true,"sws":[[]]}}),
+            // C10: dotted / indexed keys and nested mappings on documents with objects and arrays
+            "path" => {
+                let segs = ["a", "b", "a[0]", "a[1]", "b[0]", "c"];
+                let mk_path = |g: &mut G| {
+                    let n = 1 + g.r.below(3);
+                    (0..n).map(|_| *g.r.pick(&segs)).collect::<Vec<_>>().join(".")
+                };
+                let leafpat = |g: &mut G| {
+                    if g.r.chance(1, 2) { json!({"t":"pat","k":"any","ic":false,"a":[]}) } else { json!({"t":"pat","k":"exact","ic":false,"a":cps("x")}) }
+                };
+                let n_e = 1 + g.r.below(2);
+                let mut es = vec![];
+                for _ in 0..n_e {
+                    let p = mk_path(&mut g);
+                    let v = match g.r.below(4) {
+                        0 => json!({"t":"map","es":[{"m":"none","c":0,"f":cps(&mk_path(&mut g)),"v":leafpat(&mut g)}]}),
+                        _ => leafpat(&mut g),
+                    };
+                    es.push(json!({"m":"none","c":0,"f":cps(&p),"v":v}));
+                }
+                let es = dedup_entries(es);
+                let cond = if g.r.chance(1, 3) { json!({"t":"not","e":{"t":"id","n":cps("A")}}) } else { json!({"t":"id","n":cps("A")}) };
+                let src = json!({"cond":cond,"ids":[[cps("A"),{"t":"map","es":es}]]});
+                fn tree(g: &mut G, depth: usize) -> J {
+                    match g.r.below(if depth == 0 { 3 } else { 7 }) {
+                        0 => s_node("x"),
+                        1 => s_node("y"),
+                        2 => i_node("1"),
+                        3 | 4 => {
+                            let mut kv = vec![];
+                            for k in ["a", "b", "c"] {
+                                if g.r.chance(1, 2) {
+                                    kv.push((k.to_string(), tree(g, depth - 1)));
+                                }
+                            }
+                            obj(kv)
+                        }
+                        _ => {
+                            let n = g.r.below(3);
+                            json!({"t":"A","vs":(0..n).map(|_| tree(g, depth - 1)).collect::<Vec<_>>()})
+                        }
+                    }
+                }
+                let docs: Vec<J> = (0..8).map(|_| {
+                    let mut kv = vec![];
+                    for k in ["a", "b", "c"] {
+                        if g.r.chance(3, 4) {
+                            kv.push((k.to_string(), tree(&mut g, 3)));
+                        }
+                    }
+                    obj(kv)
+                }).collect();
+                json!({"topic":"path","oracle":true,"wt":true,"src":src,"docs":docs,
+                       "plan":{"tri":true,"sws":[[], [true,true,true,true]],"reprs":["json","hm","own","doc"]}})
+            }
+            // C09: random and near-boundary 64-bit values against random constants
+            "num" => {
+                let float = g.r.chance(1, 3);
+                let ctext = if float { g.flt_text() } else if g.r.chance(1, 2) { g.int_text() } else { format!("{}", g.r.next() as i64) };
+                let cn = if float { flt_node(&ctext) } else { int_node(&ctext) };
+                let op = *g.r.pick(&["eq", "gt", "ge", "lt", "le"]);
+                let form = g.r.below(5);
+                let cast = if float { "flt" } else { "int" };
+                let nonneg = !ctext.starts_with('-');
+                let src = match form {
+                    0 => json!({"cond":{"t":"id","n":cps("A")},"ids":[[cps("A"),{"t":"map","es":[{"m":"none","c":0,"f":cps("f"),"v":{"t":"cmp","op":op,"n":cn}}]}]]}),
+                    1 => json!({"cond":{"t":"id","n":cps("A")},"ids":[[cps("A"),{"t":"map","es":[{"m":"none","c":0,"f":cps("f"),"v":{"t":"num","n":cn}}]}]]}),
+                    2 => json!({"cond":{"t":"id","n":cps("A")},"ids":[[cps("A"),{"t":"map","es":[{"m":cast,"c":0,"f":cps("f"),"v":{"t":"cmp","op":op,"n":cn}}]}]]}),
+                    3 if nonneg => json!({"cond":{"t":"cmp","op":op,"l":{"t":"cast","k":cast,"f":cps("f")},"r":{"t":"const","n":cn}},
+                                          "ids":[[cps("A"),{"t":"map","es":[{"m":"none","c":0,"f":cps("g"),"v":{"t":"pat","k":"any","ic":false,"a":[]}}]}]]}),
+                    _ => json!({"cond":{"t":"not","e":{"t":"id","n":cps("A")}},"ids":[[cps("A"),{"t":"map","es":[{"m":"none","c":0,"f":cps("f"),"v":{"t":"cmp","op":op,"n":cn}}]}]]}),
+                };
+                let mut docs = vec![];
+                for _ in 0..10 {
+                    let v = if float {
+                        match g.r.below(6) {
+                            0 => f_node(&ctext),
+                            1 => f_node(&g.flt_text()),
+                            2 => i_node(&g.int_text()),
+                            3 => s_node(&ctext),
+                            4 => json!({"t":"F","neg":g.r.chance(1,2),"d":[],"fr":[],"sp":*g.r.pick(&["nan","inf"])}),
+                            _ => f_node(&g.flt_text()),
+                        }
+                    } else {
+                        let base: i128 = ctext.parse().unwrap_or(0);
+                        let near = base + [0i128, 1, -1, 2, -2][g.r.below(5)];
+                        match g.r.below(8) {
+                            0 | 1 if near >= i64::MIN as i128 && near <= u64::MAX as i128 => i_node(&near.to_string()),
+                            2 => i_node(&g.uint_text()),
+                            3 => i_node(&format!("{}", g.r.next() as i64)),
+                            4 => i_node(&format!("{}", g.r.next())),
+                            5 if near >= i64::MIN as i128 && near <= i64::MAX as i128 => s_node(&near.to_string()),
+                            6 => f_node(&g.flt_text()),
+                            _ => i_node(&g.int_text()),
+                        }
+                    };
+                    docs.push(obj(vec![("f".into(), v)]));
+                }
+                json!({"topic":"num","oracle":true,"wt":true,"src":src,"docs":docs,
+                       "plan":{"tri":true,"sws":[[], [true,true,true,true]]}})
+            }
+            // C07: one field, long strings, multi-byte characters, lists of 1-5 patterns
+            "str" => {
+                let n = 1 + g.r.below(5);
+                let pats: Vec<J> = (0..n).map(|_| g.pattern(true)).collect();
+                let v = if n == 1 && g.r.chance(1, 2) { pats[0].clone() } else { json!({"t":"list","vs":pats.clone()}) };
+                let src = json!({"cond":{"t":"id","n":cps("A")},"ids":[[cps("A"),{"t":"map","es":[{"m":"none","c":0,"f":cps("f"),"v":v}]}]]});
+                let mut docs = vec![];
+                for _ in 0..8 {
+                    let p = g.r.pick(&pats).clone();
+                    let mut h = g.near(&p);
+                    if g.r.chance(1, 4) {
+                        let extra = g.word(20, false);
+                        h = if g.r.chance(1, 2) { format!("{}{}", extra, h) } else { format!("{}{}", h, extra) };
+                    }
+                    docs.push(obj(vec![("f".into(), s_node(&h))]));
+                }
+                docs.push(obj(vec![("f".into(), json!({"t":"A","vs":[s_node(&g.word(3, false)), s_node(&g.near(&pats[0]))]}))]));
+                json!({"topic":"str","oracle":true,"wt":true,"src":src,"docs":docs,
+                       "plan":{"tri":false,"sws":[[], [true,true,true,true], [false,true,false,false], [false,false,true,false]]}})
+            }
             // C01: every switch combination
             "opt" => json!({"topic":"opt","oracle":true,"wt":true,"src":src,"docs":docs,
                             "plan":{"tri":false,"sws":all17}}),
